@@ -234,6 +234,8 @@ def gen_e2e(tier, seed):
             for misses in (False, True):
                 yield {'op': 'extract', 'spec': spec, 'policy': policy, 'misses': misses}
         yield {'op': 'extract', 'spec': spec, 'policy': 'drop', 'misses': True, 'columns': ['x', 'y'], 'dim': 'station'}
+        for policy, bad in (('drop', '152E'), ('fill', 'n/a'), ('error', '"12,5"')):
+            yield {'op': 'extract', 'spec': spec, 'policy': policy, 'misses': False, 'bad_cell': bad}
         for policy in ('error', 'drop', 'fill'):
             yield {'op': 'extract', 'spec': spec, 'policy': policy, 'misses': False, 'empty_record': True}
         if spec is specs[0]:
@@ -341,6 +343,8 @@ def _test_e2e(inp, tmp):
                     f.write(f'p{k},{float(x)!r},{float(y)!r}\n')
                     if inp.get('empty_record') and k == 1:
                         f.write(',,\n')       # a record whose cells are all empty: a row of missing values, i.e. a point outside the model
+                    if inp.get('bad_cell') and k == 1:
+                        f.write(f'bad,{inp["bad_cell"]},{float(y)!r}\n')       # a coordinate cell that is not a number: the column is read as text
             out = os.path.join(tmp, 'out.nc')
             argv = ['extract-points', src, csv, out, '--missing-points', inp['policy']]
             if 'columns' in inp:
@@ -356,6 +360,12 @@ def _test_e2e(inp, tmp):
                                                          missing_points=inp['policy'])
             except point_extraction.NonIntersectingPoints:
                 ref = None
+            except Exception as e:
+                # the library refuses this table (a malformed coordinate column): so must the tool - a failure status and no output file
+                if code == 0 or os.path.exists(out):
+                    return (f'the library refuses this table ({type(e).__name__}: {str(e)[:80]}) but extract-points exited with {code} '
+                            f'(output exists={os.path.exists(out)})')
+                return None
             if ref is None:
                 if code == 0 or os.path.exists(out):
                     return f'points outside the model with policy error: exit status {code}, output exists={os.path.exists(out)}'
